@@ -793,6 +793,8 @@ void v_init(int argc, char **argv, const char *prop)
 			v_seed = atol(argv[++i]);
 		} else if (!strcmp(argv[i], "--known") && i + 1 < argc) {
 			v_known_path = argv[++i];
+		} else if (!strcmp(argv[i], "--prop") && i + 1 < argc) {
+			v_prop = strdup(argv[++i]); /* the same harness may serve another property (C05 re-runs the kernel sweeps) */
 		} else if (!strcmp(argv[i], "--replay-dir") && i + 1 < argc) {
 			v_replay_dir = argv[++i];
 		}
